@@ -6,7 +6,8 @@
     type   := (scalar "N" int|float|string|boolean|id) | (object "N" (ifaces "I"…) (fields (f "n" <tref>)…))
             | (interface "N" (fields …)) | (union "N" (members "A"…)) | (enum "N" (values (v "NAME" <goval>)…))
     tref   := (n "N") | (l <tref>) | (nn <tref>)
-    goval  := (i <int>) | (f <m> <e>) | (s "…") | (b true|false) | (w)
+    goval  := (i <intkind> <int>) | (f float32|float64 <m> <e>) | (s "…") | (b true|false) | (w)
+    intkind:= int8 | uint8 | int16 | uint16 | int32 | uint32 | int64 | uint64 | int | uint
     doc    := (doc (ops (op query|mutation|subscription <opt str> <line> <col> (sels <sel>…))…)
                    (frags (frag "name" "TypeCond" (sels …))…))
     sel    := (fld <line> <col> <opt alias> "name" "wkey" <opt argerr> (dirs <dir>…) (sels …))
@@ -16,7 +17,8 @@
     world  := (leaf <goval>) | (null) | (tnil) | (list <world>…) | (obj "Type" (e "key" (val <world>) | (err "msg"))…)
     opt x  := (none) | (some x)
 
-  reply  := (ok (model <optdata> (errs <err>…)) <spec>) | (stuck "<why>") | bad-op
+  reply  := (ok (model <optdata> (errs <err>…)) <spec> (hyp true|false)) | (stuck "<why>" <spec>) | bad-op
+    hyp    := the decidable hypotheses of theorem exec_correct_total hold for this (schema, document)
     spec   := (spec requestError) | (spec stuck) | (spec <optdata> (all <err>…) (req <err>…) true|false)
     json   := null | (b true|false) | (i z) | (n m e) | (s "…") | (a <json>…) | (o (kv "k" <json>)…)
     err    := (e <msg> (path (k "s") | (i n) …) (locs (<line> <col>)…))
@@ -25,6 +27,7 @@ import ApiFu.Common.Sexp
 import ApiFu.Common.Loop
 import ApiFu.C01.Model
 import ApiFu.C01.Spec
+import ApiFu.C01.Lemmas
 
 open ApiFu ApiFu.C01
 
@@ -46,9 +49,27 @@ partial def tref? : Sexp → Option TypeRef
   | .list [.atom "nn", t] => (tref? t).map .nonNull
   | _ => none
 
+def intKind? : Sexp → Option IntKind
+  | .atom "int8" => some .i8
+  | .atom "uint8" => some .u8
+  | .atom "int16" => some .i16
+  | .atom "uint16" => some .u16
+  | .atom "int32" => some .i32
+  | .atom "uint32" => some .u32
+  | .atom "int64" => some .i64
+  | .atom "uint64" => some .u64
+  | .atom "int" => some .int
+  | .atom "uint" => some .uint
+  | _ => none
+
+def fltKind? : Sexp → Option FltKind
+  | .atom "float32" => some .f32
+  | .atom "float64" => some .f64
+  | _ => none
+
 def goval? : Sexp → Option GoVal
-  | .list [.atom "i", z] => z.int?.map .int
-  | .list [.atom "f", m, e] => do some (.flt (← m.int?) (← e.int?))
+  | .list [.atom "i", k, z] => do some (.int (← intKind? k) (← z.int?))
+  | .list [.atom "f", k, m, e] => do some (.flt (← fltKind? k) (← m.int?) (← e.int?))
   | .list [.atom "s", .atom s] => some (.str s)
   | .list [.atom "b", b] => (bool? b).map .bool
   | .list [.atom "w"] => some .wrong
@@ -205,7 +226,8 @@ def handle (line : String) : String :=
       match execute true S D fuel opName W with
       | .error st => toString (Sexp.node "stuck" [Sexp.str (stuckText st), specSexp spec])
       | .ok resp =>
-        toString (Sexp.node "ok" [Sexp.node "model" [optData resp.data, Sexp.node "errs" (resp.errors.map errSexp)], specSexp spec])
+        toString (Sexp.node "ok" [Sexp.node "model" [optData resp.data, Sexp.node "errs" (resp.errors.map errSexp)], specSexp spec,
+          Sexp.node "hyp" [Sexp.ofBool (hypothesesHold S D)]])
     | _, _, _ => "bad-op"
   | _ => "bad-op"
 
